@@ -154,7 +154,7 @@ def kernel_next(fns, lb):
         ob.need(it, p.pc, z3.UGE(p.ret, wall), "not below the wall clock")
         ob.need(it, p.pc, p.extra["acur"] == p.ret, "shard holds the returned value at the linearisation point")
     ob.must_hold(ob.truncated > 0 or lb > 50, "loop bound never reached?")
-    return ob.result(it, witness="c12_next")
+    return ob.result(it, witness="c12_version_clock_model")
 
 
 def kernel_observe(fns, lb):
@@ -185,7 +185,7 @@ def kernel_observe(fns, lb):
             ob.need(it, p.pc, z3.UGE(p.extra["acur"], ts), "shard >= observed timestamp on return")
         else:
             ob.need(it, p.pc, ts == MAX64, "returning without touching the shard only for u64::MAX")
-    return ob.result(it, witness=[("u64::MAX", "c12_pinned_max_after_restart"), ("", "c12_observe")])
+    return ob.result(it, witness=[("u64::MAX", "c12_pinned_max_after_restart"), ("", "c12_version_clock_model")])
 
 
 def lemma_clock_composition():
@@ -228,7 +228,7 @@ def kernel_resolve_timestamp(fns):
         else:
             ob.need(it, p.pc, explicit, "a caller-supplied timestamp is flagged explicit")
             ob.need(it, p.pc, z3.And(d == 1, payload != 0, tsv == payload), "explicit timestamp is exactly the caller's non-zero value")
-    return ob.result(it, witness="c12_resolve")
+    return ob.result(it, witness="c12_version_clock_model")
 
 
 def kernel_observe_published(fns):
@@ -247,7 +247,7 @@ def kernel_observe_published(fns):
             ob.need(it, p.pc, obs[0].args[2] == ts, "observes exactly the published timestamp")
         else:
             ob.need(it, p.pc, z3.Not(explicit), "an explicit timestamp is always observed")
-    return ob.result(it, witness="c12_observe_published")
+    return ob.result(it, witness="c12_version_clock_model")
 
 
 # ============================================================================ C13 kernels
@@ -255,6 +255,7 @@ def c13(fns, tier, env):
     lb = 3 if tier == "quick" else 5
     out = [kernel_reserve_memory(fns, lb), kernel_reservation_drop(fns), kernel_release_memory(fns), kernel_record_size(fns), kernel_note_expired(fns)]
     out += sites_c13(fns, tier)
+    out += [site_atomic_increment(fns), site_retire_expired(fns), site_sweeper(fns), site_recovery_expired_winners(fns)]
     out.append(scan_iteration(fns))
     return finalize(out, env)
 
@@ -325,7 +326,7 @@ def kernel_reserve_memory(fns, lb):
                 ob.need(it, p.pc, z3.Not(ok), "a refused reservation wrote nothing (CAS #%d)" % kk)
             ob.must_hold(all(w[0] in ("load", "compare_exchange_weak") for w in writes), "refused reservation performs no unconditional write")
             ob.need(it, p.pc, z3.And(has_limit, amount != 0), "refusal only with a limit and a non-zero amount")
-    return ob.result(it, witness="c13_reserve")
+    return ob.result(it, witness="c13_memory_limit_model")
 
 
 def kernel_reservation_drop(fns):
@@ -385,7 +386,7 @@ def kernel_release_memory(fns):
         ob.must_hold(len(writes) == 1 and writes[0][0] == "fetch_sub", "exactly one fetch_sub")
         if writes:
             ob.need(it, p.pc, writes[0][2] == writes[0][1] - amount, "subtracts exactly `amount`")
-    return ob.result(it)
+    return ob.result(it, witness="c13_model_accounting_and_reopen")
 
 
 def kernel_record_size(fns):
@@ -406,7 +407,7 @@ def kernel_record_size(fns):
         if so:
             ob.must_hold("size_of::<Record>" in f.text or "size_of::<core::record::Record>" in f.text, "overhead is the Record struct's size")
             ob.need(it, p.pc, p.ret == so[0].ret + kl + vl, "size = size_of::<Record>() + key_len + value_len")
-    return ob.result(it)
+    return ob.result(it, witness="c13_model_accounting_and_reopen")
 
 
 # ============================================================================ E2b site obligations
@@ -703,6 +704,101 @@ def c07(fns, tier, env):
     return finalize(out, env)
 
 
+def site_file_is_all_zero(fns):
+    f = mir.find(fns, "::file_is_all_zero", None)
+    ob = Ob("site_file_is_all_zero", "file_is_all_zero (decides whether a file without a FeOx signature is a blank device that may be initialised): the byte scan "
+            "reads the file sequentially from a fresh handle starting with remaining = size; in ONE ARBITRARY iteration exactly L = min(remaining, buffer) > 0 bytes "
+            "are read, exactly those L bytes are tested for non-zero, and remaining decreases by exactly L; true is returned from the scan only when remaining == 0 "
+            "and false only after a non-zero byte was seen – hence true means every one of the `size` bytes was read and was zero", "one arbitrary iteration + prologue", f)
+    hdr = main_loop_header(f)
+    rem_l = f.debug.get("remaining")
+    ob.must_hold(hdr is not None and rem_l is not None, "the scan loop and its `remaining` counter were found")
+    if hdr is None or rem_l is None:
+        return ob.result(None, witness="c17_rejected_open_leaves_file_untouched")
+    it = Interp(f, loop_bound=1, pure=PURE, max_paths=2000)
+    rem0 = z3.BitVec("remaining0", 64)
+
+    def init(it_, st):
+        st["env"][rem_l] = rem0
+
+    def range_end(e):
+        a = e.args[1] if len(e.args) > 1 else None
+        if isinstance(a, mir.Tup) and len(a.fields) == 1 and z3.is_bv(a.fields[0]):
+            return a.fields[0]
+        return None
+    cont = exits = 0
+    for p in it.run(init, start=hdr, stop=(hdr,)):
+        ob.paths += 1
+        if p.status not in ("backedge", "return"):
+            continue
+        rd = events(p, "Read>::read_exact")
+        im = events(p, "::index_mut")
+        ix = [e for e in events(p, "::index") if not e.callee.endswith("index_mut")]
+        an = [e for e in p.events if e.kind == "call" and e.callee.endswith("Iterator>::any")]
+        if p.status == "backedge":
+            cont += 1
+            ob.must_hold(len(rd) == 1 and len(im) == 1 and len(ix) == 1 and len(an) == 1, "one read, one test per iteration")
+            if not (len(rd) == 1 and len(im) == 1 and len(ix) == 1 and len(an) == 1):
+                continue
+            l_read, l_test = range_end(im[0]), range_end(ix[0])
+            ob.must_hold(l_read is not None and l_test is not None, "the read and the tested slice are prefixes buffer[..L]")
+            if l_read is None or l_test is None:
+                continue
+            ob.must_hold(contains(rd[0].args[1], it.as_u(im[0].ret)), "read_exact fills the prefix slice")
+            ob.must_hold(idx_of(p, rd[0]) < idx_of(p, an[0]), "the bytes are tested after they were read")
+            ob.need(it, p.pc, l_read == l_test, "exactly the bytes that were read are tested")
+            ln = events(p, "Vec::len")
+            ob.must_hold(len(ln) == 1, "the buffer length is consulted")
+            if not ln:
+                continue
+            # invariant carried by the loop: the scan buffer is non-empty (established in the prologue, below)
+            inv = [z3.UGT(ln[0].ret, 0)]
+            ob.need(it, list(p.pc) + inv, z3.And(z3.UGT(l_read, 0), z3.ULE(l_read, rem0)), "0 < L <= remaining")
+            ob.need(it, p.pc, z3.ULE(l_read, ln[0].ret), "L <= buffer length")
+            ob.need(it, p.pc, p.env.get(rem_l) == rem0 - l_read, "remaining decreases by exactly the number of bytes read and tested")
+            ob.need(it, p.pc, z3.Not(an[0].ret), "the scan continues only when no non-zero byte was seen")
+        else:
+            if p.ret is None:
+                continue
+            okv = it.ctx.uf("proj_Ok_0", [U], z3.BoolSort())(it.as_u(p.ret))
+            is_ok = it.entails(p.pc, it.ctx.disc(it.as_u(p.ret)) == 0)[0]
+            if not is_ok:
+                continue
+            exits += 1
+            if it.sat(list(p.pc) + [okv]):
+                ob.need(it, p.pc + [okv], rem0 == 0, "true is returned from the scan only when every byte has been consumed (remaining == 0)")
+                ob.must_hold(not rd, "the all-zero verdict is given at the loop exit")
+            if it.sat(list(p.pc) + [z3.Not(okv)]):
+                ob.must_hold(len(an) == 1, "false is returned only after testing bytes")
+                if an:
+                    ob.need(it, p.pc + [z3.Not(okv)], an[0].ret, "false is returned only when a non-zero byte was seen")
+    ob.must_hold(cont >= 1 and exits >= 2, "continuing and returning paths were reached")
+    # prologue: a fresh handle on the same path, remaining starts at size
+    it2 = Interp(f, loop_bound=1, pure=PURE, max_paths=2000)
+    size, path = z3.BitVec("size", 64), z3.Const("path", U)
+
+    def init2(it_, st):
+        st["env"]["_2"] = path
+        st["env"]["_3"] = size
+    pro = 0
+    for p in it2.run(init2, start="bb0", stop=(hdr,)):
+        if p.status != "backedge":
+            continue
+        pro += 1
+        op = [e for e in p.events if e.kind == "call" and "OpenOptions::open" in e.callee]
+        ob.must_hold(len(op) == 1, "the scan reads through a freshly opened handle (offset 0)")
+        if op:
+            ob.need(it2, p.pc, it2.as_u(op[0].args[1]) == path, "the handle is opened on the device path")
+        ob.need(it2, p.pc, p.env.get(rem_l) == size, "remaining starts at the device size")
+        fe = events(p, "vec::from_elem")
+        ob.must_hold(len(fe) == 1, "one scan buffer is allocated")
+        if fe:
+            ob.need(it2, p.pc, z3.UGT(fe[0].args[1], 0), "the scan buffer is non-empty")
+    ob.must_hold(pro >= 1, "the scan loop is reached")
+    ob.queries += it2.queries
+    return ob.result(it, witness="c17_rejected_open_leaves_file_untouched")
+
+
 def site_compare_and_swap(fns):
     f = mir.find(fns, "::compare_and_swap_with_timestamp_and_ttl", "src/core/store/atomic.rs")
     ob = Ob("site_compare_and_swap", "compare_and_swap_with_timestamp_and_ttl, every path: the conditional replacement is attempted only after the value RESOLVED for "
@@ -788,6 +884,12 @@ def site_json_patch(fns):
         ob.must_hold(contains(ap[0].args[0], val), "the patch is applied to the value resolved in this iteration")
         ob.need(it, rep[0].pc, it.ctx.disc(it.as_u(ap[0].ret)) == 0, "the replacement is attempted only when the patch applied")
         ob.must_hold(contains(rep[0].args[3], it.as_u(ap[0].ret)), "the replacement value is the patched document")
+        tls_ = re.findall(r"debug timestamp => (_\d+);", f.text)
+        tv = p.env.get(tls_[-1]) if tls_ else None
+        a4 = rep[0].args[4]
+        same = tv is not None and ((isinstance(a4, mir.Tup) and isinstance(tv, mir.Tup) and len(a4.fields) == len(tv.fields) and all(z3.eq(x, y) for x, y in zip(a4.fields, tv.fields)))
+                                   or (not isinstance(a4, mir.Tup) and not isinstance(tv, mir.Tup) and z3.eq(z3.simplify(it.as_u(a4)), z3.simplify(it.as_u(tv)))))
+        ob.must_hold(same, "the replacement is made with the loop's resolved (timestamp, explicit) pair")
         vk = [e for e in events(p, "::validate_key_value") if idx_of(p, ap[0]) < idx_of(p, e) < idx_of(p, rep[0])]
         ob.must_hold(len(vk) == 1, "the patched document is validated before the replacement")
         if vk:
@@ -800,6 +902,24 @@ def site_json_patch(fns):
             ok_b = it.ctx.uf("proj_Ok_0", [U], z3.BoolSort())(it.as_u(rep[0].ret))
             ob.need(it, p.pc, z3.And(okd(it, rep[0]), ok_b), "Ok is returned only when the conditional replacement succeeded")
     ob.must_hold(reached >= 1, "the replacement site was reached")
+    # prologue: the timestamp the retry loop works with comes from resolve_timestamp (explicit or the version clock), once
+    tls = re.findall(r"debug timestamp => (_\d+);", f.text)
+    tl = tls[-1] if tls else None      # the parameter is shadowed by the resolved (timestamp, explicit) pair
+    it0 = Interp(f, loop_bound=1, pure=PURE, max_paths=2000)
+    pro = 0
+    for p in it0.run(start="bb0", stop=(hdr,)):
+        if p.status != "backedge":
+            continue
+        pro += 1
+        rt = events(p, "::resolve_timestamp")
+        ob.must_hold(len(rt) == 1, "the timestamp is resolved exactly once, before the retry loop")
+        if rt and tl:
+            v = p.env.get(tl)
+            ob.must_hold(v is not None and (contains(v, it0.as_u(rt[0].ret)) if not isinstance(v, mir.Tup) else any(contains(x, it0.as_u(rt[0].ret)) for x in v.fields)),
+                         "the loop's timestamp is resolve_timestamp's result")
+    ob.must_hold(pro >= 1 and tl is not None, "the retry loop is reached from the prologue")
+    ob.queries += it0.queries
+    # in the iteration, that same local is what the replacement gets
     return ob.result(it, witness="c07_cas_and_patch_semantics")
 
 
@@ -934,7 +1054,7 @@ def site_atomic_increment(fns):
 
 
 def sites_c12(fns):
-    return [site_update_ttl(fns)]
+    return [site_update_ttl(fns), site_compare_and_swap(fns), site_atomic_increment(fns), site_json_patch(fns)]
 
 
 def site_update_ttl(fns):
@@ -981,7 +1101,8 @@ def site_update_ttl(fns):
 # ============================================================================ C08 sites + kernel
 def c08(fns, tier, env):
     lb = 3 if tier == "quick" else 5
-    out = [kernel_acquire_extent(fns, lb), site_load_value(fns), site_prepare_deferred(fns), site_cache_lookups_tagged(fns), site_process_deletions(fns)]
+    out = [kernel_acquire_extent(fns, lb), site_load_value(fns), site_prepare_deferred(fns), site_cache_lookups_tagged(fns), site_process_deletions(fns),
+           site_range_query(fns), site_compare_and_swap(fns)]
     return finalize(out, env)
 
 
@@ -1092,7 +1213,7 @@ def site_prepare_deferred(fns):
 
 # ============================================================================ C11
 def c11(fns, tier, env):
-    out = [kernel_ttl_expiry(fns), site_resolve_expiry(fns), site_retire_expired(fns), site_update_ttl(fns), site_sweeper(fns), site_recovery_expired_winners(fns), scan_iteration(fns)]
+    out = [kernel_ttl_expiry(fns), kernel_ttl_expiry_sites(fns), site_resolve_expiry(fns), site_retire_expired(fns), site_update_ttl(fns), site_sweeper(fns), site_recovery_expired_winners(fns), scan_iteration(fns)]
     return finalize(out, env)
 
 
@@ -1135,7 +1256,108 @@ def kernel_ttl_expiry(fns):
         # when TTL is enabled (the bool field read on this path is true) and ttl > 0 the expiry is the sum
         ob.need(it, p.pc, z3.Implies(z3.And(expiry != 0), z3.And(ttl != 0, expiry == full)), "non-zero expiry only from a non-zero TTL")
     ob.must_hold(reached >= 1, "the insert call site was reached")
-    return ob.result(it)
+    return ob.result(it, witness="c11_expiry_model")
+
+
+def _full_expiry(ts, ttl):
+    bil = z3.BitVecVal(1000000000, 64)
+    prod = z3.If(z3.BVMulNoOverflow(ttl, bil, False), ttl * bil, MAX64)
+    return z3.If(z3.BVAddNoOverflow(ts, prod, False), ts + prod, MAX64)
+
+
+TTL_CTORS = ("Record::new_with_timestamp_ttl", "Record::new_from_bytes_with_ttl")
+PLAIN_CTORS = ("Record::new_with_timestamp", "Record::new_from_bytes", "Record::new")
+
+
+def kernel_ttl_expiry_sites(fns):
+    """every other place where a TTL in seconds becomes an absolute expiry"""
+    ob = Ob("c11_ttl_expiry_sites", "every site that turns `ttl_seconds` into an absolute expiry (byte-slice insert path, conditional replacement used by "
+            "compare-and-swap / JSON patch, counter records of atomic_increment, ttl::ttl_expiry used by update_ttl): the expiry is exactly "
+            "min(u64::MAX, ts + ttl_seconds*10^9) with both steps saturating – for ALL u64 inputs, so very long TTLs never wrap into an early expiry – a record is "
+            "built with an expiry only for ttl_seconds > 0, and a requested TTL is never dropped", "all u64 ttl_seconds / timestamps; all paths (loops unrolled once)", None)
+    total_q = 0
+    last = None
+    # (1) the &[u8] insert path: value of `ttl_expiry` when the retry loop is entered
+    f = mir.find(fns, "::insert_with_timestamp_and_ttl_internal", "src/core/store/operations.rs")
+    ob.fn = f
+    hdr = main_loop_header(f)
+    loc, ttl_l = f.debug.get("ttl_expiry"), f.debug.get("ttl_seconds")
+    ob.must_hold(hdr is not None and loc is not None and ttl_l is not None, "insert path: retry loop, `ttl_expiry` and `ttl_seconds` found")
+    if hdr and loc and ttl_l:
+        it = Interp(f, loop_bound=1, pure=PURE, max_paths=2000)
+        ttl = z3.BitVec("ttl_seconds", 64)
+        self_ = z3.Const("store", U)
+        ttl_on = it.ctx.uf("proj__%d" % store_field_index(fns, "enable_ttl"), [U], z3.BoolSort())(self_)
+
+        def init(it_, st):
+            st["env"][ttl_l] = ttl
+            st["env"]["_1"] = self_
+        n = 0
+        for p in it.run(init, start="bb0", stop=(hdr,)):
+            ob.paths += 1
+            if p.status != "backedge":
+                continue
+            rt = events(p, "::resolve_timestamp")
+            ob.must_hold(len(rt) == 1, "insert path: timestamp resolved once before the loop")
+            if not rt:
+                continue
+            n += 1
+            ts = it.ctx.uf("proj__0", [U], z3.BitVecSort(64))(it.as_u(rt[0].ret))
+            exp = p.env.get(loc)
+            ob.need(it, p.pc, exp == z3.If(z3.And(ttl != 0, ttl_on), _full_expiry(ts, ttl), z3.BitVecVal(0, 64)),
+                    "insert path: expiry == (ttl > 0 && TTL enabled) ? saturating(ts + ttl*10^9) : 0")
+        ob.must_hold(n >= 1, "insert path: the loop is reached")
+        total_q += it.queries
+        last = it
+    # (2) record constructors in replace_record_if_current and counter_record
+    for suffix, hint, ts_of in (("::replace_record_if_current", "src/core/store/atomic.rs", None), ("::counter_record", None, None)):
+        g = mir.find(fns, suffix, hint)
+        ttl_l = g.debug.get("ttl_seconds")
+        ob.must_hold(ttl_l is not None, "%s: `ttl_seconds` found" % suffix)
+        if not ttl_l:
+            continue
+        it = Interp(g, loop_bound=1, pure=PURE, max_paths=8000)
+        ttl = z3.BitVec("ttl_seconds", 64)
+
+        def init(it_, st, ttl_l=ttl_l, ttl=ttl):
+            st["env"][ttl_l] = ttl
+        seen_ttl = seen_plain = 0
+        for p in it.run(init):
+            ob.paths += 1
+            if p.status not in ("return", "backedge"):
+                continue
+            for e in p.events:
+                if e.kind != "call":
+                    continue
+                if any(e.callee.endswith(c) for c in TTL_CTORS):
+                    seen_ttl += 1
+                    ts, exp = e.args[-2], e.args[-1]
+                    ob.need(it, e.pc, z3.And(ttl != 0, exp == _full_expiry(ts, ttl)), "%s: a record with expiry is built only for ttl > 0, with expiry == saturating(ts + ttl*10^9) of its own timestamp" % suffix[2:])
+                elif any(e.callee.endswith(c) for c in PLAIN_CTORS):
+                    seen_plain += 1
+                    ob.need(it, e.pc, ttl == 0, "%s: a record without expiry is built only when no TTL was requested" % suffix[2:])
+        ob.must_hold(seen_ttl >= 1 and seen_plain >= 1, "%s: both constructors were reached" % suffix[2:])
+        total_q += it.queries
+        last = it
+    # (3) ttl::ttl_expiry
+    h = mir.find(fns, "::ttl_expiry", None)
+    it = Interp(h, loop_bound=1, pure=PURE)
+    ts, ttl = z3.BitVec("timestamp", 64), z3.BitVec("ttl_seconds", 64)
+
+    def init3(it_, st):
+        st["env"]["_1"] = ts
+        st["env"]["_2"] = ttl
+    n = 0
+    for p in it.run(init3):
+        ob.paths += 1
+        if p.status != "return":
+            continue
+        n += 1
+        ob.need(it, p.pc, p.ret == z3.If(ttl == 0, z3.BitVecVal(0, 64), _full_expiry(ts, ttl)), "ttl_expiry(ts, ttl) == (ttl == 0 ? 0 : saturating(ts + ttl*10^9))")
+    ob.must_hold(n >= 1, "ttl_expiry returns")
+    total_q += it.queries
+    ob.queries += total_q - it.queries
+    return ob.result(it, witness="c11_expiry_model")
 
 
 def site_retire_expired(fns):
@@ -1175,7 +1397,7 @@ def site_retire_expired(fns):
             calc = it.ctx.uf("fn:Record::calculate_size", [U], z3.BitVecSort(64))
             ob.need(it, p.pc, ne[0].args[1] == calc(it.as_u(cur)), "un-counts size(current entry)")
     ob.must_hold(reached >= 1, "the removal site was reached")
-    return ob.result(it)
+    return ob.result(it, witness="c11_expiry_model")
 
 
 # ============================================================================ C17: explicit panic sites in MIR
@@ -1369,7 +1591,7 @@ def c17(fns, tier, env):
         d = z3.Const("data", U)
         st["env"]["_1"] = d
         st["pc"].append(it.len_of(d) == z3.BitVecVal(slot, 64))
-    out = [site_drop_guard(fns), panic_free(fns, mir.find(fns, "::decode_slot", None), "c17_decode_slot_panic_free",
+    out = [site_drop_guard(fns), site_file_is_all_zero(fns), panic_free(fns, mir.find(fns, "::decode_slot", None), "c17_decode_slot_panic_free",
                       "allocation_journal::decode_slot on ANY slot contents (every value parsed out of the buffer is havocked): no arithmetic-overflow panic, "
                       "no out-of-range slice of the slot (incl. the checksum image `data[..checksum_len]`), no failing fixed-size conversion, no out-of-bounds pair access",
                       "slot length = 3 blocks (the caller's contract); one arbitrary iteration of each loop (for index in 0..count with 0 <= index < count)",
@@ -1568,11 +1790,11 @@ def site_write_batch_protocol(fns):
 
 # ============================================================================ C19: which worker owns which shard
 def c19(fns, tier, env):
-    return finalize([site_shard_ownership(fns), site_coordinator_liveness(fns)], env)
+    return finalize([site_shard_ownership(fns), site_coordinator_liveness(fns), site_flush_worker_requeue(fns)], env)
 
 
 def c20(fns, tier, env):
-    return finalize([site_tree_slot_store(fns)], env)
+    return finalize([site_tree_slot_store(fns), site_range_query(fns)], env)
 
 
 def site_shard_ownership(fns):
@@ -1830,7 +2052,7 @@ def site_retire_extents(fns):
             elif ret_err and (J or M or C):
                 ob.must_hold(len(P) == 1, "a failed step poisons the device exactly once")
     ob.must_hold(reached >= 1, "the marker site was reached")
-    return ob.result(it)
+    return ob.result(it, witness="c13_model_accounting_and_reopen")
 
 
 def site_replay_journal(fns):
@@ -1852,7 +2074,7 @@ def site_replay_journal(fns):
                 ob.need(it, c.pc, okd(it, M[0]), "clear only when the marker writes returned Ok")
             ob.must_hold(idx_of(p, c) == max(idx_of(p, x) for x in p.events if x.kind == "call"), "the journal clear is the last step")
     ob.must_hold(reached >= 1, "the clear site was reached")
-    return ob.result(it)
+    return ob.result(it, witness="c13_model_accounting_and_reopen")
 
 
 def site_journal_write(fns, name):
@@ -1889,7 +2111,7 @@ def site_journal_write(fns, name):
             ret_err, _ = it.entails(p.pc, it.ctx.disc(it.as_u(p.ret)) != 0)
             ob.must_hold(ret_err, "returning without advancing generation/slot only with an error")
     ob.must_hold(reached >= 1, "the advance site was reached")
-    return ob.result(it)
+    return ob.result(it, witness="c13_model_accounting_and_reopen")
 
 
 def kernel_next_journal_position(fns):
@@ -1910,7 +2132,7 @@ def kernel_next_journal_position(fns):
             ob.need(it, p.pc, z3.And(t.fields[0] == g0 + 1, z3.UGT(t.fields[0], g0)), "generation' = generation + 1 without wrap")
             ob.need(it, p.pc + [z3.ULE(s0, 1)], z3.And(t.fields[1] == 1 - s0, t.fields[1] != s0), "slot alternates between 0 and 1")
     ob.must_hold(reached >= 1, "the Ok path was reached")
-    return ob.result(it)
+    return ob.result(it, witness="c13_model_accounting_and_reopen")
 
 
 def ctx_tup(it, ret):
@@ -1944,7 +2166,7 @@ def site_write_store_metadata(fns):
             for e in Wr + Fl:
                 ob.need(it, p.pc, okd(it, e), "Ok only when %s returned Ok" % e.callee.rsplit("::", 1)[-1])
     ob.must_hold(reached >= 1, "the write site was reached")
-    return ob.result(it)
+    return ob.result(it, witness="c13_model_accounting_and_reopen")
 
 
 def io_protocol(fns):
@@ -1980,7 +2202,12 @@ def site_flush_pending_deletions(fns):
 
 # ============================================================================ C16: cache accounting deltas
 def c16(fns, tier, env):
-    return finalize([site_cache_insert(fns), site_cache_remove(fns), site_cache_lookups_tagged(fns), site_evict_running_usage(fns)], env)
+    return finalize([site_cache_insert(fns), site_cache_remove(fns), site_cache_lookups_tagged(fns), site_evict_running_usage(fns), site_compare_and_swap(fns)], env)
+
+
+def c05(fns, tier, env):
+    """the block-ownership partition seen from the paths that move blocks between owners"""
+    return finalize([site_process_deletions(fns), site_write_batch_protocol(fns), site_recovery_expired_winners(fns), site_flush_all(fns)], env)
 
 
 def c02(fns, tier, env):
@@ -1988,7 +2215,7 @@ def c02(fns, tier, env):
 
 
 def c09(fns, tier, env):
-    return finalize([kernel_poison(fns), site_flush_worker_requeue(fns), site_process_deletions(fns), site_write_batch_protocol(fns), site_retire_extents(fns),
+    return finalize([kernel_poison(fns), site_force_flush(fns), site_flush_worker_requeue(fns), site_process_deletions(fns), site_write_batch_protocol(fns), site_retire_extents(fns),
                      site_journal_write(fns, "write_allocation_journal"), site_journal_write(fns, "clear_allocation_journal")], env)
 
 
@@ -2001,7 +2228,8 @@ def c01(fns, tier, env):
            site_update_record(fns, "::update_record_with_ttl_bytes", True),
            site_update_record(fns, "::replace_record_if_current", False, file_hint="src/core/store/atomic.rs", ts_tuple_local="_5", identity_local="_3",
                               witness=[("(f)", "c07_lost_increment")] + UPDATE_WITNESSES),
-           site_delete(fns), kernel_resolve_timestamp(fns), site_compare_and_swap(fns), site_json_patch(fns)]
+           site_delete(fns), kernel_resolve_timestamp(fns), site_compare_and_swap(fns), site_json_patch(fns),
+           site_atomic_increment(fns), site_update_ttl(fns), site_resolve_expiry(fns), site_range_query(fns)]
     out += [site_insert_vacant(fns, "::insert_with_timestamp_and_ttl_internal"), site_insert_vacant(fns, "::insert_bytes_with_expiry"),
             site_insert_vacant(fns, "::insert_if_absent", "src/core/store/atomic.rs", explicit_ts=False)]
     return finalize(out, env)
@@ -2089,7 +2317,7 @@ def site_cache_remove(fns):
         else:
             ob.must_hold(not subs, "no decrement without a removal")
     ob.must_hold(reached >= 1, "the removal site was reached")
-    return ob.result(it)
+    return ob.result(it, witness="c16_cache_replace_accounting")
 
 
 # ============================================================================ recovery scan: one arbitrary iteration
@@ -2252,7 +2480,7 @@ def site_flush_all(fns):
             if ret_ok:
                 ob.need(it, p.pc, okd(it, w), "Ok is returned only when the metadata write returned Ok")
     ob.must_hold(reached >= 1, "the metadata write was reached")
-    return ob.result(it)
+    return ob.result(it, witness="c13_model_accounting_and_reopen")
 
 
 def kernel_get_timestamp(fns):
@@ -2269,7 +2497,7 @@ def kernel_get_timestamp(fns):
         if nx and wall:
             ob.need(it, p.pc, z3.And(p.ret == nx[0].ret, nx[0].args[2] == wall[0].ret), "returns next(key, wall)")
             ob.need(it, p.pc, it.as_u(nx[0].args[1]) == it.as_u(it.read_local({"env": p.env}, "_2")), "for the caller's key")
-    return ob.result(it)
+    return ob.result(it, witness="c12_pinned_max_after_restart")
 
 
 def kernel_note_expired(fns):
@@ -2289,7 +2517,7 @@ def kernel_note_expired(fns):
         ob.must_hold(len(c) == 1 and len(m) == 1, "one decrement of each counter")
         if c and m:
             ob.need(it, p.pc, z3.And(c[0].args[1] == z3.BitVecVal(1, 32), m[0].args[1] == size), "exact amounts")
-    return ob.result(it)
+    return ob.result(it, witness="c11_expiry_model")
 
 
 def kernel_poison(fns):
@@ -2328,7 +2556,7 @@ def kernel_poison(fns):
                 if ew:
                     ob.need(it3, d.pc, okd(it3, ew[0]), "%s reaches the system call only when ensure_writable returned Ok" % name)
         ob.queries += it3.queries
-    return ob.result(it)
+    return ob.result(it, witness="c09_failed_batch_keeps_rest_of_shard")
 
 
 def site_force_flush(fns):
@@ -2357,7 +2585,7 @@ def site_force_flush(fns):
         if emp:
             ob.need(it, p.pc, emp[-1].ret, "Ok only when pending_workers is empty")
     ob.must_hold(oks >= 1, "an Ok return was reached")
-    return ob.result(it)
+    return ob.result(it, witness="c09_failed_batch_keeps_rest_of_shard")
 
 
 # ============================================================================ recovery: expired winners
@@ -2441,7 +2669,7 @@ def site_recovery_expired_winners(fns):
                 ob.need(it2, e.pc, z3.And(prior[-1].ret != 0, z3.UGT(now, prior[-1].ret)), "a generation is collected as expired only with 0 < expiry < now")
     ob.must_hold(collected >= 1, "the collection site was reached")
     ob.queries += it2.queries
-    return ob.result(it)
+    return ob.result(it, witness="c11_recovery_expired_winner")
 
 
 # ============================================================================ C18: lock order over every explored path
@@ -2620,7 +2848,7 @@ def scan_progress_only(fns):
 
 # ============================================================================ C15: offline migration
 def c15(fns, tier, env):
-    return finalize([site_migrate(fns), site_copy_records(fns), site_verify_records(fns), site_publish(fns), site_migration_config(fns), scan_epilogue(fns), site_scan_read_only(fns)], env)
+    return finalize([site_migrate(fns), site_copy_records(fns), site_verify_records(fns), site_publish(fns), site_destination_guard(fns), site_migration_config(fns), scan_epilogue(fns), site_scan_read_only(fns)], env)
 
 
 def store_field_index(fns, name):
@@ -2708,6 +2936,56 @@ def site_migration_config(fns):
     ob.must_hold("OpenMode::ReadOnly" in src.text, "the migration source is opened in OpenMode::ReadOnly")
     ob.queries += 5
     return ob.result(None, witness="c15_migration_is_faithful")
+
+
+def site_destination_guard(fns):
+    cr = mir.find(fns, "::create", "src/core/store/migration.rs")
+    ob = Ob("site_destination_guard_create_drop", "DestinationGuard: create() refuses an existing destination name before anything is created (symlink_metadata Ok => "
+            "DestinationExists), opens the temporary sibling with create_new (never create/truncate: an existing file is never opened for writing), and returns a "
+            "guard only for a file it created itself; Drop removes the TEMPORARY name only – the destination name is removed nowhere except in "
+            "rollback_publication, which publish() calls only after its own successful hard_link", "all paths of create (loop unrolled once); text of Drop / rollback", cr)
+    t = cr.text
+    ob.must_hold("OpenOptions::create_new(" in t and "const true" in t[t.index("OpenOptions::create_new("):t.index("OpenOptions::create_new(") + 80], "the temporary file is opened with create_new(true)")
+    ob.must_hold("OpenOptions::create(" not in t and "OpenOptions::truncate(" not in t and "OpenOptions::append(" not in t and "File::create" not in t,
+                 "no create/truncate/append open in DestinationGuard::create")
+    it = Interp(cr, loop_bound=1, pure=PURE, max_paths=6000)
+    made = 0
+    for p in it.run():
+        ob.paths += 1
+        if p.status != "return":
+            continue
+        sm = events(p, "symlink_metadata")
+        op = [e for e in p.events if e.kind == "call" and "OpenOptions::open" in e.callee]
+        ob.must_hold(len(sm) == 1, "the destination name is probed exactly once, first")
+        for e in op:
+            if sm:
+                ob.must_hold(idx_of(p, sm[0]) < idx_of(p, e), "probe before the temporary file is created")
+                ob.need(it, e.pc, it.ctx.disc(it.as_u(sm[0].ret)) != 0, "a temporary file is created only when the destination name does not exist (probe returned Err)")
+        if p.ret is not None and it.entails(p.pc, it.ctx.disc(it.as_u(p.ret)) == 0)[0]:
+            made += 1
+            ob.must_hold(len(op) >= 1, "a guard is returned only after opening a temporary file")
+            if op:
+                ob.need(it, p.pc, it.ctx.disc(it.as_u(op[-1].ret)) == 0, "a guard is returned only for a temporary file this call created")
+    ob.must_hold(made >= 1, "the success path was reached")
+    drops = [f for n, f in fns.items() if n.endswith("::drop") and "src/core/store/migration.rs" in n and "DestinationGuard" in f.header]
+    ob.must_hold(len(drops) == 1, "Drop for DestinationGuard found")
+    names = re.search(r"DestinationGuard \{ ([^}]*) \}", t)
+    order = [x.split(":")[0].strip() for x in names.group(1).split(", ")] if names else []
+    ob.must_hold("destination" in order and "temporary" in order, "field order of DestinationGuard known")
+    if drops and "temporary" in order:
+        d = drops[0].text
+        rm = re.findall(r"(_\d+) = remove_file::<&PathBuf>\(move (_\d+)\)", d)
+        ob.must_hold(len(rm) == 1, "Drop removes exactly one name")
+        for _r, arg in rm:
+            m = re.search(r"%s = &\(\(\*_1\)\.(\d+): std::path::PathBuf\);" % re.escape(arg), d)
+            ob.must_hold(bool(m) and int(m.group(1)) == order.index("temporary"), "Drop removes the temporary name, never the destination")
+    rb = mir.find(fns, "::rollback_publication", "src/core/store/migration.rs")
+    callers = [n for n, f in fns.items() if "rollback_publication(" in f.text and not n.endswith("::rollback_publication")]
+    ob.must_hold(all(n.endswith("::publish") for n in callers) and len(callers) >= 1, "rollback_publication is called from publish only")
+    removers = [n for n, f in fns.items() if "src/core/store/migration.rs" in n and "remove_file::<" in f.text]
+    ob.must_hold(all(n.endswith("::publish") or n.endswith("::rollback_publication") or n.endswith("::drop") for n in removers), "no other migration function removes a file")
+    ob.queries += 8
+    return ob.result(it, witness="c15_migration_is_faithful")
 
 
 def site_migrate(fns):
@@ -2953,7 +3231,7 @@ def site_range_query(fns):
 
 
 def c14(fns, tier, env):
-    return finalize([site_range_query(fns), site_update_ttl(fns)], env)
+    return finalize([site_range_query(fns), site_update_ttl(fns), site_resolve_expiry(fns)], env)
 
 
 # ============================================================================ TTL sweeper
@@ -3006,7 +3284,7 @@ def site_sweeper(fns):
             ob.need(it, rem[0].pc, it.as_u(cur) == rec, "the removed entry is the sampled generation")
         ob.must_hold(len(ne) == 1 and idx_of(p, ne[0]) > idx_of(p, rem[0]), "counters adjusted once, after the removal")
     ob.must_hold(reached >= 1, "the removal site was reached")
-    return ob.result(it)
+    return ob.result(it, witness="c11_expiry_model")
 
 
 # ============================================================================ common tail
